@@ -305,16 +305,18 @@ def write_evidence(run, level, violations, rule, extra=None, assumptions=None, n
         "wall_s": round(time.time() - run.t0, 1),
         "violations": violations,
     }
-    os.makedirs(os.path.join(VERIF, "evidence"), exist_ok=True)
-    tmp = os.path.join(VERIF, "evidence", run.pid + ".json.tmp")
+    edir = os.environ.get("VERIF_EVIDENCE_DIR") or os.path.join(VERIF, "evidence")
+    os.makedirs(edir, exist_ok=True)
+    tmp = os.path.join(edir, run.pid + ".json.tmp")
     json.dump(ev, open(tmp, "w"), indent=1)
-    os.replace(tmp, os.path.join(VERIF, "evidence", run.pid + ".json"))
+    os.replace(tmp, os.path.join(edir, run.pid + ".json"))
 
 
 def write_replay(pid, ev, names):
-    os.makedirs(os.path.join(VERIF, "replays"), exist_ok=True)
+    rdir = os.environ.get("VERIF_REPLAY_DIR") or os.path.join(VERIF, "replays")
+    os.makedirs(rdir, exist_ok=True)
     key = case_key(ev)
     h = hashlib.sha1((pid + key).encode()).hexdigest()[:12]
-    path = os.path.join(VERIF, "replays", "%s-%s.json" % (pid, h))
+    path = os.path.join(rdir, "%s-%s.json" % (pid, h))
     json.dump({"property": pid, "key": key, "rejected_conjuncts": names, "event": ev}, open(path, "w"), indent=1)
     return path
